@@ -213,6 +213,25 @@ pub fn run(tier: Tier) -> i32 {
                 }
             }
         }
+        // a memory limit below, at and above the output length (and below / above the dictionary): whatever the one-shot
+        // decoder answers under that limit, the incremental one answers too
+        {
+            let n = 12_000usize;
+            let lits: Vec<Sym> = (0..n as u32).map(|i| Sym::L((i.wrapping_mul(2246822519) >> 11) as u8)).collect();
+            let mut near: Vec<Sym> = (0..200u32).map(|i| Sym::L((i * 5 + 1) as u8)).collect();
+            for k in 0..44u32 {
+                near.push(Sym::M(1 + (k * 17) % 190, 270));
+            }
+            for (pn, prog) in [("literals only", lits), ("copies at distances < 200", near)] {
+                let e = enc::encode(3, 0, 2, 1 << 16, &prog);
+                for dict in [4096u32, 1 << 16] {
+                    let file = enc::lzma_file(3, 0, 2, dict, Some(e.expect.len() as u64), &e.payload);
+                    for ml in [1u64, 256, 4095, 4096, 4097, 8192, e.expect.len() as u64 - 1, e.expect.len() as u64, 65535, 65536, 1 << 20] {
+                        inputs.push((format!("{} bytes ({}), dictionary {}, memory limit {}", e.expect.len(), pn, dict, ml), file.clone(), Opts { memlimit: Some(ml), ..Opts::default() }));
+                    }
+                }
+            }
+        }
         let mut jobs: Vec<(usize, usize)> = Vec::new();
         for (ii, (_, x, _)) in inputs.iter().enumerate() {
             let n = x.len();
